@@ -468,6 +468,123 @@ def send_vs_loss(decisions, npeers=1):
         w.close()
 
 
+def slow_selection(case) -> Result:
+    """The selection callback is the user's code and may take its time.  While it runs, connections of the offered
+    peers are lost, redialled (persistent peers) and their capabilities exchange is answered or left open.  Whatever
+    the callback returns, the request may only be written on a connection whose exchange the harness has completed
+    and which it has not closed - or NotRoutable."""
+    from diameter.message.commands import CreditControlRequest
+    res = Result()
+    n = case["npeers"]
+    w = W.NodeWorld({"peers": [{"name": f"peer{i + 1}.example", "ip": [f"10.1.1.{i + 1}"], "persistent": True,
+                                "reconnect_wait": case["reconnect_wait"]} for i in range(n)],
+                     "apps": [{"app_id": 4, "auth": True, "peers": list(range(n)), "handler": "answer"}],
+                     "node_timers": {"idle": 5000, "dwa": 50, "cer": 50, "cea": 50, "wakeup": 1}, "default_dial": "ok"})
+    try:
+        NotRoutable = w.mods["node"].NotRoutable
+        w.start()
+        cur = {}                   # peer index -> its latest connection
+        ready_since = {}           # Conn -> time its 2001 CEA was fed
+        closed_at = {}             # Conn -> time the harness closed it
+        pidx = lambda c: int(c.remote.addr[0].rsplit(".", 1)[1]) - 1
+
+        def adopt():
+            for c in w.conns:
+                if c not in ready_since and c not in closed_at:
+                    cur[pidx(c)] = c
+        adopt()
+        for i, c in sorted(cur.items()):
+            if w.answer_cer(c, 2001, auth=(4,), host=f"peer{i + 1}.example") is not False:
+                ready_since[c] = w.k.now
+        offered = []
+
+        def sel(node, app, message, peers):
+            offered.append(sorted(p.node_name for p in peers))
+            w.k.block(lambda: False, timeout=case["sleep"])
+            order = sorted(peers, key=lambda p: p.node_name)
+            return order[case["pick"] % len(order)]
+        w.node.peer_route_select_func = sel
+        m = CreditControlRequest()
+        m.session_id, m.origin_host, m.origin_realm = "n;1", W.NODE_HOST.encode(), W.NODE_REALM.encode()
+        m.destination_realm, m.service_context_id = W.NODE_REALM.encode(), "x"
+        m.cc_request_type, m.cc_request_number = 1, 0
+        m.header.end_to_end_identifier = 0x7001
+        app = w.apps[0]
+        t0 = w.k.now
+        call = w.app_call(lambda: app.send_request(m, timeout=30), name="sender")
+        touched = set()
+        half = 0
+        events = sorted(case["events"])
+        while half <= 2 * case["sleep"] + 2:
+            for t_half, kind, i in events:
+                if t_half != half:
+                    continue
+                i %= n
+                c = cur.get(i)
+                if c is None:
+                    continue
+                if kind == "LOSE" and c not in closed_at:
+                    closed_at[c] = w.k.now
+                    touched.add(i)
+                    w.peer_close(c)
+                elif kind == "CEA" and c not in ready_since and c not in closed_at:
+                    if w.answer_cer(c, 2001, auth=(4,), host=f"peer{i + 1}.example") is not False:
+                        ready_since[c] = w.k.now
+                        c.cea_t = w.k.now
+            w.advance(0.5)
+            adopt()
+            half += 1
+        box = call["box"]
+        written = []
+        for c in w.conns:
+            for f in c.refresh():
+                if f.is_request and f.code == 272 and f.h["e2e"] == 0x7001:
+                    written.append((c, f))
+        desc = f"selection took {case['sleep']} s, offered {offered}"
+        if len(written) > 1:
+            res.v("C10/sent-twice", f"{desc}: written on connections {[c.idx for c, _ in written]}")
+        for c, f in written[:1]:
+            # readiness by the harness's account: CEA fed no later than the write, not closed before it
+            if c not in ready_since:
+                res.v("C10/ineligible-peer/not-ready/after-slow-selection",
+                      f"{desc}: request written at +{f.t - t0:.1f} on connection {c.idx} (peer {pidx(c)}) whose capabilities "
+                      f"exchange has not been answered")
+            elif c in closed_at and closed_at[c] < f.t:
+                res.v("C10/ineligible-peer/closed/after-slow-selection", f"{desc}: request written on a connection closed at +{closed_at[c] - t0:.1f}")
+        if not written:
+            if not (box["done"] and isinstance(box["exc"], NotRoutable)):
+                res.v("C10/slow-selection/" + ("no-error" if box["done"] else "sender-blocked"),
+                      f"{desc}: nothing written, outcome {box['exc']!r} done={box['done']}")
+            elif offered and len(offered[0]) > 1:
+                chosen = int(sorted(offered[0])[case["pick"] % len(offered[0])][4:].split(".")[0]) - 1
+                if chosen not in touched:
+                    res.v("C10/eligible-but-not-sent", f"{desc}: peer {chosen} was chosen and its connection never changed, got {box['exc']!r}")
+        elif box["done"] and isinstance(box["exc"], NotRoutable):
+            res.v("C10/not-routable-but-sent", f"{desc}: NotRoutable raised but the request was written")
+        for sig, d in W.monitor_threads(w):
+            res.v(f"C10/thread-died/{sig}", d)
+        chosen_lost = bool(offered) and len(offered[0]) > 1 and \
+            (int(sorted(offered[0])[case["pick"] % len(offered[0])][4:].split(".")[0]) - 1) in touched
+        res.nontrivial = bool(touched)
+        res.classes += ["slow-selection", f"slow-selection:chosen-lost:{chosen_lost}",
+                        "slow-selection:outcome:" + ("sent" if written else "not-routable"),
+                        f"slow-selection:redialled:{len(w.conns) > n}"]
+        res.sample = {"case": case}
+        return res
+    finally:
+        w.close()
+
+
+@st.composite
+def slow_cases(draw):
+    n = draw(st.integers(2, 3))
+    sleep = draw(st.integers(1, 5))
+    ev = draw(st.lists(st.tuples(st.integers(0, 2 * sleep + 1), st.sampled_from(["LOSE", "LOSE", "CEA"]), st.integers(0, n - 1)),
+                       min_size=1, max_size=5))
+    return {"slow_select": True, "npeers": n, "sleep": sleep, "pick": draw(st.integers(0, 2)),
+            "reconnect_wait": draw(st.integers(1, 2)), "events": [list(e) for e in ev]}
+
+
 def schedule_part_loss(rec, shard, nshards, thorough):
     from dv import sched
     from dv.common import fp
@@ -528,6 +645,11 @@ def shard_main(shard, nshards, tier, scale):
         res = evaluate(case)
         record(rec, case, res, evaluate, "events", shrunk)
     hyp.run_given(cases_strategy(), body, n, derive_seed(PID, "rand", shard), rec=rec)
+
+    def body_slow(case):
+        res = slow_selection(case)
+        record(rec, case, res, slow_selection, "events", shrunk)
+    hyp.run_given(slow_cases(), body_slow, max(20, n // 8), derive_seed(PID, "slow", shard), rec=rec)
     return rec.dump()
 
 
@@ -536,7 +658,8 @@ def run(tier, scale=1.0):
     rec = Recorder(PID)
     for d in hyp.pool_run(shard_main, (tier, scale)):
         rec.merge(d)
-    required = {"send-vs-loss": 1, "equal-hop-by-hop-two-connections": 1, "schedule-exploration": 1, "senders:3": 1, "npeers:4": 1, "napps:3": 1, "select:first": 1, "select:None": 1, "state:waiting-dwa": 1,
+    required = {"slow-selection:chosen-lost:True": 1, "slow-selection:outcome:sent": 1, "slow-selection:outcome:not-routable": 1,
+                "slow-selection:redialled:True": 1, "send-vs-loss": 1, "equal-hop-by-hop-two-connections": 1, "schedule-exploration": 1, "senders:3": 1, "npeers:4": 1, "napps:3": 1, "select:first": 1, "select:None": 1, "state:waiting-dwa": 1,
                 "state:disconnecting": 1, "state:disconnecting-late-dwa": 1, "state:awaiting": 1, "state:closed": 1, "sends:4": 1}
     return finish(rec, tier=tier, level="exploration", rule=RULE, assumptions=ASSUME, t0=t0,
                   required_classes=required)
@@ -554,4 +677,6 @@ def replay(doc):
             return 1
         print(f"[{PID}] replay: signature {doc['signature']} does not reproduce (got {sigs})")
         return 0
+    if case.get("slow_select"):
+        return generic_replay(PID, slow_selection, doc)
     return generic_replay(PID, evaluate, doc)
